@@ -58,7 +58,7 @@ func checkC07(w *World, r *Report) {
 	r.Rule("BB-WIRE", "the module's block hook reaches the keeper's per-auction processing (its error is a BB-ERRPROP site)", 1)
 	r.Rule("BB-EXHAUST", "no spontaneous failure for any AuctionStatus value", 5)
 	r.Rule("BB-ERRPROP", "errors in the block hook's call tree are propagated", 25)
-	r.Rule("DIV-GUARD", "divisors are non-zero", 2)
+	r.Rule("DIV-GUARD", "divisors are non-zero", 1)
 
 	tm := NewTerms(w)
 	bb := w.beginBlockFn()
